@@ -78,6 +78,16 @@ CHECKS = {
             'Reference model transcribes the documented semantics; specs compared by identity; one '
             'documented error condition per call.',
             'DESIGN.md 5 C14'),
+    'C15': ('exploration',
+            'Hypothesis-generated directory layouts (real temp file system, symlinks) x generated '
+            'path names; differential against an independent realpath/commonpath resolver',
+            'Hundreds (quick) / ~13k (thorough) layouts with drawn symlink sets, 8-40 requested '
+            'names each (.., ., absolute, sibling-prefix, link and extension-fallback names), '
+            'through read_input_file, \\input and \\include; unique markers identify which file '
+            'was returned.',
+            'POSIX symlink semantics of the sandbox file system; positive direction only where '
+            'the lookup order is unambiguous.',
+            'DESIGN.md 5 C15'),
     'C20': ('exploration',
             'bounded-exhaustive enumeration against a counting reference model',
             'Every string <= 7 (quick) / <= 9 (thorough) over {a, NL, CR, space}, every position, '
